@@ -538,6 +538,14 @@ func (f *followingQuery) Select(t iterator) NodeNavigator {
 				}
 			} else {
 				var q *descendantQuery // descendant query
+				if node.NodeType() == AttributeNode && node.MoveToParent() {
+					// the descendants of the owner element follow its attributes in document order
+					q = &descendantQuery{
+						Input:     &contextQuery{},
+						Predicate: f.Predicate,
+					}
+					t.Current().MoveTo(node)
+				}
 				f.iterator = func() NodeNavigator {
 					for {
 						if q == nil {
